@@ -48,9 +48,10 @@ type SegD struct {
 	Created int `json:"created"`
 }
 
+// Commit: a committed transaction of the source database, in WAL file number `Epoch` (WAL files
+// are separated by TRUNCATE checkpoints), ending at byte `End` of that file.
 type Commit struct {
-	Gen   int    `json:"gen"`
-	Index int    `json:"index"`
+	Epoch int    `json:"epoch"`
 	End   int    `json:"end"`
 	Hash  string `json:"hash"`
 }
@@ -60,6 +61,13 @@ type Recipe struct {
 	Seed    uint64 `json:"seed"`
 	Gens    int    `json:"gens"`
 	Coincide bool  `json:"coincide"` // shape WAL sizes / cuts so that a first-segment size equals the previous WAL's size
+	// IDPerm[g] = rank, in generation-ID order (= listing order), of the g-th generation in time
+	// order; nil = IDs ascend with time. 0.3.x generation IDs are random hex strings, so every
+	// permutation occurs in the wild.
+	IDPerm []int `json:"id_perm,omitempty"`
+	// Overlap: an older generation keeps recording (segments, later snapshots) after a newer one
+	// has started (two replicators on one path), so creation times interleave across generations.
+	Overlap bool `json:"overlap,omitempty"`
 }
 
 type Case struct {
@@ -74,13 +82,15 @@ type Hist struct {
 	snaps   []SnapD
 	segs    []SegD
 	commits []Commit
-	genIDs  []string
+	genIDs  []string // by generation in time order
+	rank    []int    // rank of the generation's ID in the sorted listing (= generation number in the model)
+	start   []int    // first WAL file (epoch) recorded by the generation; index = epoch - start
 	ltx     []string // LTX files (paths) in (level desc, name) order, after writeLTX
 	ltxSnap []bool
 	ltxHash string
+	lastShape string // set by oracle: noteworthy shape of the last judged input
 }
 
-func genID(rank int) string { return fmt.Sprintf("%016x", uint64(rank+1)*0x1111111111) }
 
 func hashState(path string) (string, error) {
 	db, err := sql.Open("sqlite", path)
@@ -201,6 +211,21 @@ func build(rc Recipe, work string) (*Hist, error) {
 		}
 		return int(fi.Size())
 	}
+	// generation IDs: random 16-hex strings, assigned to generations according to IDPerm
+	idr := hx.NewRand(rc.Seed ^ 0x5eed1d5eed1d)
+	ids := make([]string, rc.Gens)
+	for i := range ids {
+		ids[i] = fmt.Sprintf("%016x", idr.Uint64())
+	}
+	sort.Strings(ids)
+	h.genIDs, h.rank, h.start = make([]string, rc.Gens), make([]int, rc.Gens), make([]int, rc.Gens)
+	for g := 0; g < rc.Gens; g++ {
+		r := g
+		if len(rc.IDPerm) == rc.Gens {
+			r = rc.IDPerm[g]
+		}
+		h.rank[g], h.genIDs[g] = r, ids[r]
+	}
 	snapshot := func(g, idx int) error {
 		b, err := os.ReadFile(src)
 		if err != nil {
@@ -208,44 +233,79 @@ func build(rc Recipe, work string) (*Hist, error) {
 		}
 		clk += 10
 		h.snaps = append(h.snaps, SnapD{Gen: g, Index: idx, Created: clk, Hash: hashConn(db)})
-		return writeLZ4(filepath.Join(h.dir, "generations", genID(g), "snapshots", fmt.Sprintf("%08x.snapshot.lz4", idx)), b, clk)
+		return writeLZ4(filepath.Join(h.dir, "generations", h.genIDs[g], "snapshots", fmt.Sprintf("%08x.snapshot.lz4", idx)), b, clk)
 	}
+	// plan: generation g records WAL files (epochs) start[g] .. end[g]-1
+	end := make([]int, rc.Gens)
+	E := 0
 	for g := 0; g < rc.Gens; g++ {
-		h.genIDs = append(h.genIDs, genID(g))
-		if err := snapshot(g, 0); err != nil {
-			return nil, err
+		n := 1 + rnd.Intn(4)
+		if rc.Coincide && n < 2 {
+			n = 2
 		}
-		nIdx := 1 + rnd.Intn(4)
-		if rc.Coincide && nIdx < 2 {
-			nIdx = 2
+		h.start[g] = E
+		E += n
+		end[g] = E
+	}
+	if rc.Overlap {
+		for g := 0; g+1 < rc.Gens; g++ {
+			end[g] = min(E, end[g]+1+rnd.Intn(3))
 		}
-		prevFrames := 0
-		for idx := 0; idx < nIdx; idx++ {
-			var ends, times []int
-			nTx := 1 + rnd.Intn(4)
-			for k := 0; k < nTx || (rc.Coincide && idx > 0 && (walSize()-32)/frameSize <= prevFrames); k++ {
-				if err := txn(rnd.Chance(30)); err != nil {
+	}
+	prevFrames := 0
+	for e := 0; e <= E; e++ {
+		// boundary before WAL file e: snapshots, in a random order across generations
+		var act []int
+		for g := 0; g < rc.Gens; g++ {
+			if h.start[g] <= e && e <= end[g] {
+				act = append(act, g)
+			}
+		}
+		for i := len(act) - 1; i > 0; i-- {
+			j := rnd.Intn(i + 1)
+			act[i], act[j] = act[j], act[i]
+		}
+		for _, g := range act {
+			idx := e - h.start[g]
+			if idx == 0 || (!rc.Coincide && ((e < end[g] && rnd.Chance(50)) || (e == end[g] && rnd.Chance(25)))) { // coincidence histories keep one snapshot so that every later index is restored through
+				if err := snapshot(g, idx); err != nil {
 					return nil, err
 				}
-				clk += 10
-				if ws := walSize(); len(ends) == 0 || ws > ends[len(ends)-1] {
-					ends = append(ends, ws)
-					times = append(times, clk)
-					h.commits = append(h.commits, Commit{Gen: g, Index: idx, End: ws, Hash: hashConn(db)})
-				}
-				if k > 40 {
-					break
-				}
 			}
-			wal, err := os.ReadFile(src + "-wal")
-			if err != nil {
+		}
+		if e == E {
+			break
+		}
+		var ends, times []int
+		nTx := 1 + rnd.Intn(4)
+		for k := 0; k < nTx || (rc.Coincide && e > 0 && (walSize()-32)/frameSize <= prevFrames); k++ {
+			if err := txn(rnd.Chance(30)); err != nil {
 				return nil, err
 			}
-			if len(wal) < 32 || (len(wal)-32)%frameSize != 0 {
-				return nil, fmt.Errorf("unexpected WAL size %d", len(wal))
+			clk += 10
+			if ws := walSize(); len(ends) == 0 || ws > ends[len(ends)-1] {
+				ends = append(ends, ws)
+				times = append(times, clk)
+				h.commits = append(h.commits, Commit{Epoch: e, End: ws, Hash: hashConn(db)})
 			}
-			frames := (len(wal) - 32) / frameSize
-			// cut points at arbitrary frame boundaries
+			if k > 40 {
+				break
+			}
+		}
+		wal, err := os.ReadFile(src + "-wal")
+		if err != nil {
+			return nil, err
+		}
+		if len(wal) < 32 || (len(wal)-32)%frameSize != 0 {
+			return nil, fmt.Errorf("unexpected WAL size %d", len(wal))
+		}
+		frames := (len(wal) - 32) / frameSize
+		for g := 0; g < rc.Gens; g++ {
+			if !(h.start[g] <= e && e < end[g]) {
+				continue
+			}
+			idx := e - h.start[g]
+			// this generation's cut points, at arbitrary frame boundaries
 			cuts := []int{}
 			for f := 1; f < frames; f++ {
 				if rnd.Chance(35) {
@@ -262,29 +322,41 @@ func build(rc Recipe, work string) (*Hist, error) {
 			for _, c := range cuts {
 				// created: when the commit that completed this segment happened
 				cr := times[len(times)-1]
-				for i, e := range ends {
-					if e >= c {
+				for i, en := range ends {
+					if en >= c {
 						cr = times[i]
 						break
 					}
 				}
 				h.segs = append(h.segs, SegD{Gen: g, Index: idx, Offset: off, Size: c - off, Created: cr})
-				if err := writeLZ4(filepath.Join(h.dir, "generations", genID(g), "wal", fmt.Sprintf("%08x_%08x.wal.lz4", idx, off)), wal[off:c], cr); err != nil {
+				if err := writeLZ4(filepath.Join(h.dir, "generations", h.genIDs[g], "wal", fmt.Sprintf("%08x_%08x.wal.lz4", idx, off)), wal[off:c], cr); err != nil {
 					return nil, err
 				}
 				off = c
 			}
-			prevFrames = frames
-			if _, err := db.Exec("PRAGMA wal_checkpoint(TRUNCATE)"); err != nil {
-				return nil, err
-			}
-			if idx+1 < nIdx && rnd.Chance(50) || idx+1 == nIdx && rnd.Chance(25) {
-				if err := snapshot(g, idx+1); err != nil {
-					return nil, err
-				}
-			}
+		}
+		prevFrames = frames
+		if _, err := db.Exec("PRAGMA wal_checkpoint(TRUNCATE)"); err != nil {
+			return nil, err
 		}
 	}
+	sort.SliceStable(h.snaps, func(i, j int) bool {
+		a, b := h.snaps[i], h.snaps[j]
+		if a.Gen != b.Gen {
+			return a.Gen < b.Gen
+		}
+		return a.Index < b.Index
+	})
+	sort.SliceStable(h.segs, func(i, j int) bool {
+		a, b := h.segs[i], h.segs[j]
+		if a.Gen != b.Gen {
+			return a.Gen < b.Gen
+		}
+		if a.Index != b.Index {
+			return a.Index < b.Index
+		}
+		return a.Offset < b.Offset
+	})
 	return h, nil
 }
 
@@ -456,7 +528,7 @@ func (h *Hist) restore(work string, T int) implOut {
 			rank := -1
 			for i, id := range h.genIDs {
 				if id == g {
-					rank = i
+					rank = h.rank[i]
 				}
 			}
 			snap = fmt.Sprintf("%d:%d", rank, toInt(rec.attrs["index"]))
@@ -504,12 +576,18 @@ func (h *Hist) present(remove int) []SegD {
 }
 
 func (h *Hist) inputs(remove, T int) string {
+	// listing order of the real client = input order of the real findBestSnapshotV3 / applyWALSegmentsV3:
+	// generations by ID (rank), then index, then offset; the model's generation number is the rank
 	var sn, sg []string
-	for _, s := range h.snaps {
-		sn = append(sn, fmt.Sprintf("%d:%d:%d", s.Gen, s.Index, s.Created))
+	snaps := append([]SnapD(nil), h.snaps...)
+	sort.SliceStable(snaps, func(i, j int) bool { return h.rank[snaps[i].Gen] < h.rank[snaps[j].Gen] })
+	for _, s := range snaps {
+		sn = append(sn, fmt.Sprintf("%d:%d:%d", h.rank[s.Gen], s.Index, s.Created))
 	}
-	for _, s := range h.present(remove) {
-		sg = append(sg, fmt.Sprintf("%d:%d:%d:%d:%d", s.Gen, s.Index, s.Offset, s.Size, s.Created))
+	segs := h.present(remove)
+	sort.SliceStable(segs, func(i, j int) bool { return h.rank[segs[i].Gen] < h.rank[segs[j].Gen] })
+	for _, s := range segs {
+		sg = append(sg, fmt.Sprintf("%d:%d:%d:%d:%d", h.rank[s.Gen], s.Index, s.Offset, s.Size, s.Created))
 	}
 	return fmt.Sprintf("T=%d SN=%s SG=%s", T, strings.Join(sn, ","), strings.Join(sg, ","))
 }
@@ -557,6 +635,21 @@ func (h *Hist) oracle(remove, T int, io implOut) *verdict {
 			}
 		}
 	}
+	h.lastShape = ""
+	if gap && firstMissing+1 < len(orig) {
+		m, n := orig[firstMissing], orig[firstMissing+1]
+		if m.Offset == 0 && n.Index == m.Index && n.Offset != 0 && isPresent(firstMissing+1) && m.Index > snap.Index {
+			prev := 0
+			for k := range orig {
+				if orig[k].Index == m.Index-1 && isPresent(k) {
+					prev += orig[k].Size
+				}
+			}
+			if prev == n.Offset {
+				h.lastShape = "f10-offset-coincidence" // the input of the repaired finding F10: must be an error
+			}
+		}
+	}
 	if gap {
 		if !io.ok {
 			return nil
@@ -594,7 +687,8 @@ func (h *Hist) oracle(remove, T int, io implOut) *verdict {
 	if last >= 0 {
 		li, le := orig[last].Index, orig[last].Offset+orig[last].Size
 		for _, c := range h.commits {
-			if c.Gen == snap.Gen && c.Index >= snap.Index && (c.Index < li || (c.Index == li && c.End <= le)) {
+			ci := c.Epoch - h.start[snap.Gen] // index of that WAL file in the snapshot's generation
+			if ci >= snap.Index && (ci < li || (ci == li && c.End <= le)) {
 				want = c.Hash
 			}
 		}
@@ -651,22 +745,44 @@ type found struct {
 func main() {
 	o := hx.ParseFlags("C19")
 	res := hx.NewResult(o, "c19: Replica.Restore on legacy 0.3.x layouts synthesised from real SQLite histories vs Lean V3 model + reference-state oracle")
-	res.Rule = "a case = one history (1-3 generations x 1-4 WAL indices x 1-4 transactions, snapshots at several indices, each WAL split at random frame boundaries, LZ4 files with controlled mtimes) x one removed segment (or none) x one timestamp (none, or around every creation time) x optionally a current-format replica in the same directory; non-trivial = at least one WAL segment applies or the case must fail; distinct = recipe+removal+timestamp"
+	res.Rule = "a case = one history (1-4 generations with random 16-hex IDs under every permutation of ID order vs time order, optionally overlapping in time, x 1-4 WAL indices x 1-4 transactions, snapshots at several indices with creation times interleaved across generations, each WAL split at random frame boundaries, LZ4 files with controlled mtimes) x one removed segment (or none) x one timestamp (none, every creation time, between every two consecutive creation times) x optionally a current-format replica in the same directory; non-trivial = at least one WAL segment applies or the case must fail; distinct = recipe+removal+timestamp"
 	if o.Replay != "" {
 		replay(o)
 		return
 	}
-	nHist, nCoin := 24, 8
+	nHist, nCoin := 30, 8
 	if o.Tier == "thorough" {
-		nHist, nCoin = 160, 40
+		nHist, nCoin = 200, 40
 	}
 	rnd := hx.NewRand(o.Seed)
 	var recipes []Recipe
-	for i := 0; i < nHist; i++ {
-		recipes = append(recipes, Recipe{Seed: rnd.Uint64(), Gens: 1 + rnd.Intn(3)})
+	// generation-ID order vs time order: every permutation for 2 and 3 generations (and random ones for 4)
+	perms := map[int][][]int{1: {nil}, 2: {{0, 1}, {1, 0}}, 3: {{0, 1, 2}, {0, 2, 1}, {1, 0, 2}, {1, 2, 0}, {2, 0, 1}, {2, 1, 0}}}
+	randPerm := func(n int) []int {
+		p := make([]int, n)
+		for i := range p {
+			p[i] = i
+		}
+		for i := n - 1; i > 0; i-- {
+			j := rnd.Intn(i + 1)
+			p[i], p[j] = p[j], p[i]
+		}
+		return p
+	}
+	for i := 0; len(recipes) < nHist; i++ {
+		gens := []int{1, 2, 3, 3, 2, 3, 4}[i%7]
+		seed, overlap := rnd.Uint64(), gens > 1 && rnd.Chance(50)
+		if gens == 4 {
+			recipes = append(recipes, Recipe{Seed: seed, Gens: 4, IDPerm: randPerm(4), Overlap: overlap})
+			continue
+		}
+		for _, p := range perms[gens] { // the same history under every assignment of IDs
+			recipes = append(recipes, Recipe{Seed: seed, Gens: gens, IDPerm: p, Overlap: overlap})
+		}
 	}
 	for i := 0; i < nCoin; i++ {
-		recipes = append(recipes, Recipe{Seed: rnd.Uint64(), Gens: 1 + rnd.Intn(2), Coincide: true})
+		g := 1 + rnd.Intn(2)
+		recipes = append(recipes, Recipe{Seed: rnd.Uint64(), Gens: g, Coincide: true, IDPerm: randPerm(g)})
 	}
 	var corpus []Case
 	if o.Corpus != "" {
@@ -742,6 +858,11 @@ func main() {
 	for _, k := range keys {
 		f := best[k]
 		kind, sig, _ := strings.Cut(k, "|")
+		if kind == "shape" { // not a finding: smallest input of a noteworthy shape, for the corpus
+			b, _ := json.Marshal(f.c)
+			res.Notes = append(res.Notes, fmt.Sprintf("smallest %s input: %s -> %s", sig, b, f.what))
+			continue
+		}
 		res.AddFinding(kind, sig, f.what, map[string]any{"case": f.c})
 	}
 	res.Notes = append(res.Notes, fmt.Sprintf("%d histories (%d shaped for offset coincidence) + %d corpus cases", len(recipes), nCoin, len(corpus)))
@@ -757,7 +878,7 @@ func evalCase(h *Hist, c Case, work string, drv *hx.Driver, res *hx.Result, mu *
 	var moved string
 	if c.Remove >= 0 && c.Remove < len(h.segs) {
 		s := h.segs[c.Remove]
-		p := filepath.Join(h.dir, "generations", genID(s.Gen), "wal", fmt.Sprintf("%08x_%08x.wal.lz4", s.Index, s.Offset))
+		p := filepath.Join(h.dir, "generations", h.genIDs[s.Gen], "wal", fmt.Sprintf("%08x_%08x.wal.lz4", s.Index, s.Offset))
 		moved = p
 		os.Rename(p, p+".removed")
 	}
@@ -797,6 +918,12 @@ func evalCase(h *Hist, c Case, work string, drv *hx.Driver, res *hx.Result, mu *
 	if v != nil {
 		note("violation", v.sig, c, v.what, size)
 	}
+	if withOracle && h.lastShape != "" {
+		mu.Lock()
+		res.Count("shape:" + h.lastShape + ":" + strings.Fields(io.canon)[0])
+		mu.Unlock()
+		note("shape", h.lastShape, c, io.canon, size)
+	}
 	return io, model, v
 }
 
@@ -816,16 +943,24 @@ func runHistory(rc Recipe, only *Case, work string, drv *hx.Driver, res *hx.Resu
 		evalCase(h, *only, work, drv, res, mu, note, true)
 		return
 	}
-	// distinct snapshot times are guaranteed by the clock; sweep timestamps around every creation time
+	// distinct snapshot times are guaranteed by the clock. Timestamps: none, every creation time of a
+	// snapshot or segment, a point between every two consecutive creation times, before the first, after the last
 	tsSet := map[int]bool{0: true}
+	var all []int
 	for _, s := range h.snaps {
-		tsSet[s.Created-1], tsSet[s.Created], tsSet[s.Created+1] = true, true, true
+		all = append(all, s.Created)
 	}
-	for i, s := range h.segs {
-		if i%2 == 0 {
-			tsSet[s.Created], tsSet[s.Created+5] = true, true
+	for _, s := range h.segs {
+		all = append(all, s.Created)
+	}
+	sort.Ints(all)
+	for i, t := range all {
+		tsSet[t] = true
+		if i+1 < len(all) && all[i+1]-t >= 2 {
+			tsSet[t+(all[i+1]-t)/2] = true
 		}
 	}
+	tsSet[all[0]-1], tsSet[all[len(all)-1]+7] = true, true
 	var tss []int
 	for t := range tsSet {
 		tss = append(tss, t)
@@ -834,7 +969,14 @@ func runHistory(rc Recipe, only *Case, work string, drv *hx.Driver, res *hx.Resu
 	for _, t := range tss {
 		evalCase(h, Case{Recipe: rc, Remove: -1, T: t}, work, drv, res, mu, note, true)
 	}
+	identity := true
+	for g, r := range rc.IDPerm {
+		identity = identity && g == r
+	}
 	for i := range h.segs {
+		if !identity && !rc.Coincide && rc.Gens < 4 && i%3 != 1 {
+			continue // the same history under another ID assignment: sample the removals
+		}
 		evalCase(h, Case{Recipe: rc, Remove: i, T: 0}, work, drv, res, mu, note, true)
 		if i%3 == 0 {
 			t := h.segs[len(h.segs)-1].Created - 15
@@ -938,7 +1080,9 @@ func replay(o *hx.Opts) {
 	fail := false
 	note := func(kind, sig string, _ Case, what string, _ int) {
 		fmt.Printf("%s: %s — %s\n", kind, sig, what)
-		fail = true
+		if kind != "shape" {
+			fail = true
+		}
 	}
 	for _, s := range h.snaps {
 		fmt.Printf("snapshot gen=%d index=%d created=%d state=%s\n", s.Gen, s.Index, s.Created, s.Hash)
